@@ -9,6 +9,7 @@ import (
 	"os"
 	"os/exec"
 	"path/filepath"
+	"strings"
 	"sync"
 	"testing"
 	"time"
@@ -30,6 +31,9 @@ type ByteCase struct {
 	Class string `json:"class"`
 	Val   []byte `json:"val"`
 	Big   int    `json:"big"` // if > 0 the value is Val repeated to about this many bytes
+	// round-trip campaign only: the first attempt to put the value meets an unavailable state directory
+	// (the put must fail), the client repeats the identical put once the directory is back
+	Outage bool `json:"outage,omitempty"`
 }
 
 func (c ByteCase) value() []byte {
@@ -124,12 +128,46 @@ func runC18(t *testing.T, c ByteCase) (*h.Violation, h.Info) {
 	ctx := context.Background()
 	// the value goes in twice: as the first version of a fresh name and as a later
 	// version of an existing one (different code paths in the store)
-	if _, err := cl.Put(ctx, "s", []byte("an earlier version")); err != nil {
+	if _, err := cl.Put(ctx, "s", []byte("an earlier version, rather longer than many of the values that replace it: "+strings.Repeat("=", 300))); err != nil {
 		return h.V("harness", "put: %v", err), info
+	}
+	// a Store with a file cache is already running on the earlier version; it sees the new value as a rotation
+	cachePath := filepath.Join(dir, "cache", "c.json")
+	fcache, err := setec.NewFileCache(cachePath)
+	if err != nil {
+		return h.V("harness", "cache: %v", err), info
+	}
+	st, err := setec.NewStore(ctx, setec.StoreConfig{Client: cl, Secrets: []string{"s"}, Cache: fcache, PollInterval: -1, Logf: func(string, ...any) {}})
+	if err != nil {
+		return h.V("harness", "NewStore: %v", err), info
+	}
+	defer st.Close()
+	if c.Outage {
+		away := dir + ".away"
+		if err := os.Rename(dir, away); err != nil {
+			return h.V("harness", "rename: %v", err), info
+		}
+		_, perr := cl.Put(ctx, "s", append([]byte{}, val...))
+		if err := os.Rename(away, dir); err != nil {
+			return h.V("harness", "rename back: %v", err), info
+		}
+		if perr == nil {
+			return h.V("bytes-round-trip-unchanged", "Put reported success while the state directory was unavailable: the value cannot be on disk"), info
+		}
+		info.Class("first-put-failed-then-repeated")
 	}
 	ver, err := cl.Put(ctx, "s", append([]byte{}, val...))
 	if err != nil {
 		return h.V("put-accepts-any-bytes", "Put of %d bytes (%s): %v", len(val), c.Class, err), info
+	}
+	// a server restarted at this very moment (nothing else has been written since the acknowledgement)
+	if d1, err := dbx.OpenDiscard(path, dbx.DummyKey()); err != nil {
+		return h.V("bytes-round-trip-unchanged", "reopen right after the put: %v", err), info
+	} else {
+		sv, err := d1.GetVersion(dbx.Super().DB(), "s", ver)
+		if err != nil || !bytes.Equal(valOf(sv), val) {
+			return h.V("bytes-round-trip-unchanged", "a server restarted right after the acknowledged put (outage before it: %v): get-version %d = %.60q, %v; %d bytes %.60q were put", c.Outage, ver, valOf(sv), err, len(val), val), info
+		}
 	}
 	if err := cl.Activate(ctx, "s", ver); err != nil {
 		return h.V("harness", "activate: %v", err), info
@@ -172,17 +210,14 @@ func runC18(t *testing.T, c ByteCase) (*h.Violation, h.Info) {
 	if v := same("get after restart", valOf(sv), err); v != nil {
 		return v, info
 	}
-	// through a Store, its cache, and a file client reading that cache
-	cachePath := filepath.Join(dir, "cache", "c.json")
-	fcache, err := setec.NewFileCache(cachePath)
-	if err != nil {
-		return h.V("harness", "cache: %v", err), info
+	// through the running Store (which picks the value up by polling), its cache, and a file client reading that cache
+	if err := st.Refresh(ctx); err != nil {
+		return h.V("bytes-round-trip-unchanged", "Store.Refresh: %v", err), info
 	}
-	st, err := setec.NewStore(ctx, setec.StoreConfig{Client: cl, Secrets: []string{"s"}, Cache: fcache, PollInterval: -1, Logf: func(string, ...any) {}})
-	if err != nil {
-		return h.V("bytes-round-trip-unchanged", "NewStore: %v", err), info
+	if len(val) < 300 {
+		info.Class("cache-rewritten-with-a-shorter-document")
 	}
-	if v := same("Store handle", st.Secret("s").Get(), nil); v != nil {
+	if v := same("Store handle after a poll", st.Secret("s").Get(), nil); v != nil {
 		st.Close()
 		return v, info
 	}
@@ -245,9 +280,13 @@ var c18 = &h.Campaign[ByteCase]{
 	Prop: "C18", Sub: "roundtrip",
 	Rule: "rapid: byte strings by class (empty, ASCII, text with leading/inner/trailing White_Space code points, whitespace only, look-alikes that are not White_Space, invalid UTF-8 with and without surrounding whitespace, NULs, random binary, 64 KiB - 4 MiB patterns) put through setec.Client into the real handlers and database; read back by get / get-version / conditional get, after reopening the database, through a Store handle, GetString, the FileCache document (decoded by the harness's own codec), a Store restarted from that cache with an unreachable service, and a FileClient on that cache (non-empty values); non-trivial = invalid UTF-8, surrounding whitespace, or >= 64 KiB; distinct by (class, bytes)",
 	Quick: 500, Thorough: 60000,
-	Gen:   genBytes,
-	Run:   runC18,
-	Key:   func(c ByteCase) any { return fmt.Sprintf("%s/%d/%x", c.Class, c.Big, c.Val) },
+	Gen: func(rt *rapid.T) ByteCase {
+		c := genBytes(rt)
+		c.Outage = rapid.IntRange(0, 3).Draw(rt, "outage") == 0
+		return c
+	},
+	Run: runC18,
+	Key: func(c ByteCase) any { return fmt.Sprintf("%s/%d/%x/%v", c.Class, c.Big, c.Val, c.Outage) },
 }
 
 // ---- CLI -------------------------------------------------------------------------
